@@ -80,6 +80,11 @@ def make_case(cid, rng, schema, root, n_ops, disk):
                               "DELETE FROM PerformanceData WHERE id = (SELECT MAX(id) FROM Track WHERE path IS NOT NULL)",
                               "UPDATE Track SET length = NULL, year = NULL"])
             add({"op": "raw_exec", "sql": sql}, None)
+    if rng.random() < 0.4:
+        # derived columns as another writer leaves them: the stored file name in other letter case than the path's last component
+        add({"op": "raw_exec", "sql": rng.choice(["UPDATE Track SET filename = upper(filename) WHERE id = (SELECT MIN(id) FROM Track WHERE path IS NOT NULL)",
+                                                  "UPDATE Track SET filename = lower(filename)",
+                                                  "UPDATE Track SET filename = filename || ' (1)' WHERE id = (SELECT MAX(id) FROM Track WHERE path IS NOT NULL)"])}, None)
     if rng.random() < 0.35:
         # rows this library writes once, when it creates a library, are not there (libraries made by earlier releases of this library
         # or by other exporters lack them): the "no album art" row every track points at; on 1.x also the default history / prepare lists
